@@ -189,8 +189,6 @@ def neighbour_broken(prev_xml: bytes, ksr_req: Any, new_xml: bytes) -> list[str]
     a = ET.fromstring(prev_xml)
     b = ET.fromstring(new_xml)
     bad = []
-    if R.raw_ids(prev_xml.decode("utf-8", "replace"))[0] == R.raw_ids(new_xml.decode("utf-8", "replace"))[0]:
-        bad.append("request id reused (same raw text in both files)")
     ab = a.find("Response").findall("ResponseBundle")
     bb = b.find("Response").findall("ResponseBundle")
 
@@ -211,6 +209,30 @@ def neighbour_broken(prev_xml: bytes, ksr_req: Any, new_xml: bytes) -> list[str]
     for s in bb[0].findall("Signature"):
         if s.get("keyIdentifier") not in last_ids:
             bad.append(f"first-bundle signer {s.get('keyIdentifier')} was not published in the preceding bundle")
+    return bad
+
+
+def neighbour_broken_readings(a: Any, b: Any) -> list[str]:
+    """The same relation on two readings in the JSON shape of lib.response_j (bundles in timeline order) — used with the
+    repository's own reader where no standard parser can read the files (histories whose KSRs are not well-formed XML)."""
+    bad = []
+    if not a["bundles"] or not b["bundles"]:
+        return ["no bundles"]
+    last, first = a["bundles"][-1], b["bundles"][0]
+    if first["inception"] > last["expiration"]:
+        bad.append("coverage gap")
+    if a["id"] == b["id"]:
+        bad.append("request id reused")
+    if {x["id"] for x in a["bundles"]} & {x["id"] for x in b["bundles"]}:
+        bad.append("bundle id reused")
+    last_pks = {k["publicKey"] for k in last["keys"]}
+    last_ids = {k["keyIdentifier"] for k in last["keys"]}
+    for k in first["keys"]:
+        if k["flags"] & 1 == 0 and k["publicKey"] not in last_pks:
+            bad.append(f"first-bundle ZSK {k['keyIdentifier']} was not in the preceding bundle")
+    for x in first["signatures"]:
+        if x["keyIdentifier"] not in last_ids:
+            bad.append(f"first-bundle signer {x['keyIdentifier']} was not published in the preceding bundle")
     return bad
 
 
@@ -253,7 +275,14 @@ def judge_written(res: Result, work: Path, o: dict[str, Any], case: dict[str, An
             ET.fromstring(request_text)
             res.violation("harness: a profile declared not well-formed produced a well-formed KSR", case, key="profile:" + text.name)
         except ET.ParseError:
-            res.bump("emitted SKR for a KSR that is not well-formed XML: judged by reload / echo / bytes only")
+            res.bump("emitted SKR for a KSR that is not well-formed XML: judged by reload / echo / bytes / the repository reader's neighbour relation")
+        if prev_skr is not None and repo_reading is not None:
+            try:
+                broken = neighbour_broken_readings(R.canon_written(prev_skr), repo_reading)
+            except Exception as exc:  # noqa: BLE001
+                broken = [f"unreadable: {type(exc).__name__}"]
+            if broken:
+                res.violation("accepted SKRs are not neighbours on one timeline", case, key=broken[0].split()[0] + ":" + variant, broken=broken)
         return
     bad = R.skr_problems(new_xml, num_bundles=9, roles=R.roles_of(sc), request_xml=request_text)
     if bad:
@@ -355,6 +384,89 @@ def policy_change_stream(res: Result, runs: list[dict[str, Any]], work: Path, sc
                 res.sample({"case": case, "outcome": out, "documented_rule_accepts": want}, limit=6)
 
 
+def sections_stream(res: Result, runs: list[dict[str, Any]], work: Path, schemas: dict[str, Any], tier: str) -> None:
+    """Ceremonies whose configuration sets the SAME-NAMED options of two sections (R.shared_section_options(): num_bundles and
+    validate_signatures of request_policy / response_policy) to DIFFERENT values, fed with an honest previous SKR, a previous
+    SKR whose last-bundle / first-bundle signature does not verify (one base64 character changed; confirmed with dnspython), and
+    a KSR whose proof of possession does not verify.  Expected, from the property text (C08/C10): the previous SKR is judged
+    under response_policy (refused iff its bundle count differs from response_policy.num_bundles or a signature does not verify
+    while response_policy.validate_signatures is on), the KSR under request_policy; the ceremony succeeds iff both pass.  The
+    ceremony model gets both sections on its line as well."""
+    shared = R.shared_section_options()
+    res.stats["options-named-in-two-sections"] = shared
+    unknown = [o for o, secs in shared.items() if o not in ("num_bundles", "validate_signatures") or set(secs) != {"request_policy", "response_policy"}]
+    if unknown:
+        res.notes.append(f"options named in two configuration sections that the sections stream does not set apart: {unknown}")
+    boot = scenario_for(0, schemas["normal"], "honest", 0)
+    boot.req_id = "req-q0-sections"
+    o = R.run_ceremony(boot, work, answer="Yes")
+    o["case"] = {"path": [], "schema": "normal", "variant": "bootstrap", "stream": "sections"}
+    runs.append(o)
+    res.count(o["case"])
+    if not o["written"]:
+        res.violation("bootstrap ceremony did not succeed", o["case"], key="bootstrap:sections", outcome=o["outcome"])
+        return
+    prev_good = o["file_after"].decode()
+    prevs = {"honest": prev_good, "last-bundle-signature-corrupted": R.corrupt_signature(prev_good, -1), "first-bundle-signature-corrupted": R.corrupt_signature(prev_good, 0)}
+    verifies = {k: not R.skr_problems(v.encode(), num_bundles=9) for k, v in prevs.items()}
+    if not verifies["honest"] or verifies["last-bundle-signature-corrupted"] or verifies["first-bundle-signature-corrupted"]:
+        res.violation("harness: the corrupted previous SKRs are not what they are meant to be (independent validator)", o["case"], key="sections:generator", verifies=verifies)
+        return
+    prev_last_exp = boot.start + timedelta(days=101)
+    n = 9
+    plans: list[tuple[str, str, dict[str, Any], dict[str, Any]]] = []  # (previous SKR, KSR, request_policy options, response_policy options)
+    for rv in (True, False):
+        for sv in (True, False):
+            for pk in prevs:
+                plans.append((pk, "honest", {"validate_signatures": rv}, {"validate_signatures": sv}))
+            plans.append(("honest", "pop-corrupted", {"validate_signatures": rv}, {"validate_signatures": sv}))
+    for rn, sn in ((n, n - 1), (n, n + 1), (n - 1, n), (n + 1, n), (n - 1, n - 1)):
+        plans.append(("honest", "honest", {"num_bundles": rn}, {"num_bundles": sn}))
+        if tier != "quick":
+            plans.append(("last-bundle-signature-corrupted", "honest", {"num_bundles": rn, "validate_signatures": True}, {"num_bundles": sn, "validate_signatures": False}))
+    for k, (pk, kk, rq, rs) in enumerate(plans):
+        sc = scenario_for(1, schemas["normal"], "honest", 0, prev_last_exp, boot.req_id)
+        sc.req_id = f"req-q1-sections-{k}"
+        ksr_xml = C.request_to_xml(sc.request())
+        if kk == "pop-corrupted":
+            ksr_xml = R.corrupt_signature(ksr_xml, -1)
+        mode = R.PREV_MODES[k % 2]
+        src = {"prev_xml": prevs[pk]} if mode == "config" else {"prev_cli_xml": prevs[pk]}
+        pre_tag, pre = R.output_files(earlier_skr=prev_good.encode())[k % 5]
+        o = R.run_ceremony(sc, work, answer="Yes", ksr_xml=ksr_xml, preexisting=pre, rp_extra=rq, response_policy_extra=rs, **src)
+        req_full = {"num_bundles": n, "validate_signatures": True, **rq}
+        resp_full = {"num_bundles": n, "validate_signatures": True, **rs}
+        differ = sorted(x for x in req_full if req_full[x] != resp_full[x])
+        case = {"path": ["normal/sections"], "schema": "normal", "variant": "sections", "quarter": 1, "previous_skr": pk, "ksr": kk, "request_policy": req_full, "response_policy": resp_full, "sections_differ_in": differ, "previous_skr_named_in": mode, "output_path_before": pre_tag}
+        o["case"] = case
+        runs.append(o)
+        res.count(case)
+        res.bump("variant:sections:" + ("+".join(differ) or "sections-agree"))
+        res.bump(f"sections:previous-skr:{pk}")
+        out = o["outcome"]
+        ok = out == {"ok": True}
+        want_prev = resp_full["num_bundles"] == n and (verifies[pk] or not resp_full["validate_signatures"])
+        want_ksr = req_full["num_bundles"] == n and (kk == "honest" or not req_full["validate_signatures"])
+        want = want_prev and want_ksr
+        res.bump("sections:" + ("must-accept" if want else "must-refuse:" + ("previous-skr" if not want_prev else "ksr")))
+        if ok != o["written"]:
+            res.violation("result and write disagree", case, key="write", outcome=out)
+        if ok and not want_prev:
+            res.violation("a ceremony went through on a previous SKR that fails its own consistency under response_policy (signature does not verify / wrong bundle count); the other section's same-named option says otherwise", case, key="accepted:sections:previous-skr:" + "+".join(differ), outcome=out, sign_ops=o["sign_ops"])
+        elif ok and not want_ksr:
+            res.violation("a ceremony went through on a KSR that fails request_policy's own num_bundles / validate_signatures", case, key="accepted:sections:ksr:" + "+".join(differ), outcome=out, sign_ops=o["sign_ops"])
+        if not ok and want:
+            res.violation("an honest successor of a consistent previous SKR was refused when the sections' same-named options differ", case, key="refused:sections:" + "+".join(differ), outcome=out)
+        if not ok and o["sign_ops"]:
+            res.violation("private-key operations in a ceremony that must not go through", case, key="early-sign:sections", outcome=out, sign_ops=o["sign_ops"])
+        if not o["written"] and o["file_after"] != pre:
+            res.violation("a refused ceremony did not leave the output path as it was", case, key="clobbered:" + pre_tag, outcome=out)
+        if o["written"] and want:
+            judge_written(res, work, o, case, sc, ksr_xml, prev_good.encode(), "sections")
+        if differ and not want_prev and not any(isinstance(x, dict) and x.get("case", {}).get("variant") == "sections" for x in res.samples):
+            res.sample({"case": case, "outcome": out, "documented_rule_accepts": want}, limit=12)
+
+
 def header_variant(variant: str, st: Quarter, sc: S.Scenario) -> tuple[str, dict[str, Any]]:
     """The KSR of a header variant `<what is re-used>[/<other header field changed>]` and the run_ceremony arguments it needs.
     `sc` is the scenario of the base variant (fresh request id and bundle ids unless the base itself replays them)."""
@@ -381,9 +493,10 @@ def header_variant(variant: str, st: Quarter, sc: S.Scenario) -> tuple[str, dict
     return xml, kw
 
 
-def explore(res: Result, r: Any, runs: list[dict[str, Any]], work: Path, schemas: dict[str, Any], tier: str, *, text: R.Text | None, budget: int, depth_max: int, full: bool) -> None:
+def explore(res: Result, r: Any, runs: list[dict[str, Any]], work: Path, schemas: dict[str, Any], tier: str, *, text: R.Text | None, budget: int, depth_max: int, full: bool, must: tuple[str, ...] = ()) -> None:
     """One tree of ceremonies from a bootstrap 'normal' quarter, spelled as `text` says.  full: every schema x the honest
-    variant and every variant for the rotating schema at every state (the ASCII tree); otherwise a handful per state."""
+    variant and every variant for the rotating schema at every state (the ASCII tree); otherwise a handful per state, among
+    them always the variants `must` (for the rotating schema)."""
     names = list(schemas)
     tag = text.name if text is not None else "ascii"
     quick = tier == "quick"
@@ -396,10 +509,10 @@ def explore(res: Result, r: Any, runs: list[dict[str, Any]], work: Path, schemas
     if not o["written"]:
         res.violation("bootstrap ceremony did not succeed", o["case"], key="bootstrap", outcome=o["outcome"])
         return
-    judge_written(res, work, o, o["case"], boot, None, None, "bootstrap")
+    judge_written(res, work, o, o["case"], boot, None, None, "bootstrap", text=text)
     if text is not None:
         res.sample({"text": tag, "ksk_labels": [k["label"] for k in boot.ksks.values()], "zsk_identifiers": [z[0] for z in boot.zsks], "request_id": boot.req_id, "bytes_written": len(o["file_after"]), "non_ascii_bytes": sum(1 for c in o["file_after"] if c > 127)}, limit=10)
-    root = Quarter(o["file_after"], 0, ("normal",), boot.start + timedelta(days=101), boot.req_id)
+    root = Quarter(o["file_after"], 0, ("normal",), boot.start + timedelta(days=101), boot.req_id, ksr_xml=C.request_to_xml(boot.request()))
     frontier = [root]
     executed = 0
     for depth in range(1, depth_max + 1):
@@ -421,7 +534,7 @@ def explore(res: Result, r: Any, runs: list[dict[str, Any]], work: Path, schemas
                 else:
                     combos += hv
             else:
-                keep = [("normal", "honest"), (rot, "honest"), (rot, "replayed"), (rot, "request-id-alone/other-serial"), (rot, "honest-stale-config-prev")]
+                keep = [("normal", "honest"), (rot, "honest"), (rot, "replayed"), (rot, "request-id-alone/other-serial"), (rot, "honest-stale-config-prev")] + [(rot, v) for v in must]
                 rest = [(rot, v) for v in VARIANTS[1:] + HEADER_VARIANTS] + [(n, "honest") for n in names]
                 combos = list(dict.fromkeys(keep + r.sample([c for c in rest if c not in keep], (3 if depth == 1 else 1) if quick else 8)))
             for sname, variant in combos:
@@ -502,7 +615,7 @@ def explore(res: Result, r: Any, runs: list[dict[str, Any]], work: Path, schemas
                 if o["written"]:
                     new_xml = o["file_after"]
                     # every emitted SKR must be loadable and acceptable as the next previous SKR
-                    judge_written(res, work, o, case, sc, ksr_xml, st.skr_xml, variant)
+                    judge_written(res, work, o, case, sc, ksr_xml, st.skr_xml, variant, text=text)
                     if depth == 1 and variant == "honest":
                         # the same ceremony to a fresh path: what is found at a re-used path must not show in the result at all
                         twin = R.run_ceremony(sc, work, answer="Yes", ksr_xml=ksr_xml, preexisting=None, **src)
@@ -516,7 +629,7 @@ def explore(res: Result, r: Any, runs: list[dict[str, Any]], work: Path, schemas
                             echoed = ET.fromstring(new_xml).get("id")
                         except Exception:  # noqa: BLE001
                             echoed = sc.req_id
-                        nxt.append(Quarter(new_xml, q, st.path + (f"{sname}/{variant}",), sc.start + timedelta(days=101), echoed or sc.req_id, st.skr_xml))
+                        nxt.append(Quarter(new_xml, q, st.path + (f"{sname}/{variant}",), sc.start + timedelta(days=101), echoed or sc.req_id, st.skr_xml, ksr_xml=ksr_xml if ksr_xml is not None else C.request_to_xml(sc.request())))
                 if len(res.samples) < 3 and (ok or variant == "gapped"):
                     res.sample({"case": case, "outcome": out, "token_ops": len(o["log"])})
                 if "/" in variant and not any(isinstance(x, dict) and "/" in str(x.get("case", {}).get("variant", "")) for x in res.samples):
@@ -557,6 +670,10 @@ def run(tier: str, driver_ok: bool) -> Result:
         explore(res, r, runs, work, schemas, tier, text=None, budget=340 if quick else 2600, depth_max=3 if quick else 4, full=True)
         for text in R.TEXT_PROFILES.values():
             explore(res, lib.rng("C10:" + text.name), runs, work, schemas, tier, text=text, budget=32 if quick else 100, depth_max=3, full=False)
+        # XML-special content handed over verbatim, and identifiers related as strings: every kind of re-use at every state
+        for text in list(R.XML_TEXT_PROFILES.values()) + list(R.RELATED_TEXT_PROFILES.values()):
+            explore(res, lib.rng("C10:" + text.name), runs, work, schemas, tier, text=text, budget=22 if quick else 80, depth_max=2 if quick else 3, full=False, must=tuple(REUSE_ALONE))
+        sections_stream(res, runs, work, schemas, tier)
         policy_change_stream(res, runs, work, schemas, tier)
         if driver_ok:
             with_line = [x for x in runs if "line" in x]
